@@ -26,12 +26,13 @@ def check_history(case, ctx):
     kw = {k: v for k, v in p.items() if not (k == "rates_tracked" and use_default_rates)}  # default argument when it says the same
     with sut(detector="LinearFourRates"):
         det = LinearFourRates(parallelize=False, **kw)
-    decoy = Decoy(lambda: LinearFourRates(parallelize=False, **kw), lambda d, a, b: d.update(a, b), every=4)
+    decoy = Decoy(lambda: LinearFourRates(parallelize=False, **kw), lambda d, a, b: d.update(a, b), every=1)
     model = lm.LfrModel(p["time_decay_factor"], p["warning_level"], p["detect_level"], p["burn_in"], p["num_mc"], p["subsample"], p["rates_tracked"], p["round_val"])
     fk = Forker(model, copier=lambda m: m.clone())
     ndrift = 0
     for i, (yt, yp) in enumerate(case["pairs"]):
-        decoy.step(1 - yt, yp)
+        np.random.seed(base + i + 7919)
+        decoy.step(yt, yp)  # same parameters and pairs, other random numbers (a bounds cache shared between objects would leak)
         with sut(detector="LinearFourRates"):
             np.random.seed(base + i)
             det.update(yt, yp)
@@ -78,6 +79,8 @@ def check_history(case, ctx):
     if fk.forked_steps:
         ctx.label("met-tie")
     ctx.label(f"drifts={min(ndrift, 3)}", f"tracked={len(p['rates_tracked'])}")
+    if p["burn_in"] >= 100:
+        ctx.label("late-start(denominators>100)")
     if m.cache_hit_after_reset:
         ctx.label("cache-hit-after-reset")
     if ndrift >= 1 and m.cache_hit_after_reset:
@@ -92,6 +95,15 @@ def strat_history(tier):
         if draw(st.booleans()):
             p["rates_tracked"] = draw(st.permutations(p["rates_tracked"]))
         pairs = draw(vs.pair_seq(min_segments=2, max_segments=5, seg_min=8, seg_max=50, max_total=150))
+        if draw(st.integers(0, 9)) == 0:
+            # late start: the first tested denominators are in the hundreds (long burn-in or sparse sub-sampling)
+            p["burn_in"] = draw(st.sampled_from([127, 130, 200, 300]))
+            p["subsample"] = draw(st.sampled_from([1, 7, 150]))
+            p["num_mc"] = draw(st.integers(5, 10))
+            p["time_decay_factor"] = draw(st.sampled_from([0.9, 0.97, 0.99]))
+            n = p["burn_in"] + draw(st.integers(5, 40)) + (150 if p["subsample"] == 150 else 0)
+            base_pairs = pairs
+            pairs = [base_pairs[i % len(base_pairs)] for i in range(n)]
         return {"params": p, "pairs": pairs, "seed_base": draw(vs.seed_base)}
 
     return s()
@@ -162,7 +174,7 @@ PROPERTY = {
     "rule": (
         "history: Hypothesis (y_true,y_pred) sequences of 16-150 pairs with segment-wise cell probabilities x time_decay_factor x levels x "
         "burn_in 0..20 x subsample 1..4 x round_val {1,2,4} x every non-empty subset (and order) of tracked rates x num_mc 5..60, "
-        "parallelize=False, numpy seeded per call. The reference model keeps the confusion matrix (pseudo-count 1), updates a tracked rate's "
+        "parallelize=False, numpy seeded per call; one case in ten starts testing late (burn_in 127..300 or subsample 150, time_decay_factor up to 0.99), so that the simulated sums have hundreds of terms. The reference model keeps the confusion matrix (pseudo-count 1), updates a tracked rate's "
         "statistic only when the rate changed, simulates / caches bounds like the documentation says (same draws, cache keyed by numpy-rounded "
         "rate and denominator, surviving resets) and derives state, retraining_recs, all_drift_states; the private bounds cache is compared "
         "when present. Non-trivial = >= 1 drift and a cache hit after a reset. bounds_distribution: the simulated quantiles (2000-4000 "
